@@ -190,10 +190,30 @@ def run_removal(inst, leaving, seed, lines=False, second=False):
             # bounded wait on a logical condition: the replication level is back (re-hosted computations are replicated
             # again by their new host, lost replicas are placed again by their owners)
             want = min(inst["k"], len(survivors) - 1)
-            deadline = time.time() + 8
+            t_wait = time.time()
+            deadline = t_wait + 8
+
+            def busy():
+                # a replication search still in progress somewhere, or messages still queued on a surviving agent
+                for a in survivors:
+                    try:
+                        if not AG[a].replication_comp._replication_in_progress.is_empty() or AG[a]._messaging._queue.qsize() > 0:
+                            return True
+                    except Exception:
+                        pass
+                return False
+
             while True:
                 holders = {c: sorted(a for a in survivors if c in AG[a].replication_comp.hosted_replicas) for c in comps}
-                if all(len(h) >= want for h in holders.values()) or time.time() > deadline:
+                if all(len(h) >= want for h in holders.values()):
+                    break
+                if time.time() > deadline:
+                    # on a loaded machine the searches may simply not be over: as long as something is still moving the wait
+                    # goes on, up to 40 s in all; what is not restored by then is judged
+                    if busy() and time.time() - t_wait < 40:
+                        deadline = time.time() + 2
+                        S2["waited_beyond_8s"] = True
+                        continue
                     break
                 time.sleep(0.05)
             S2["level_restored"] = all(len(h) >= want for h in holders.values())
@@ -532,12 +552,14 @@ def analyse_second(inst, r):
         # mechanism of the known finding: the search for a replica host went through an agent other than the computation's
         # host, which forwarded the request to a departed agent whose departure it had not learnt yet; the request is lost
         # and answered as "nothing found", the search ends below the level and is not tried again
-        by_intermediate = all(any(comp == c and at != owner[c] for at, gone, comp in lost) for c in short)
+        # (searches started together by one host follow the same paths: a record for another computation of the same host,
+        # lost at an agent other than that host, counts for its sibling too)
+        by_intermediate = all(any(at != owner[c] and (comp == c or owner.get(comp) == owner[c]) for at, gone, comp in lost) for c in short)
         key = "replication-level-not-restored:request-forwarded-to-a-departed-agent-by-an-intermediate-agent" if by_intermediate \
             else "replication-level-not-restored-after-repair"
         ctx += " lost requests (forwarding agent, departed agent, computation): %r" % (lost,)
         P.append((key,
-                  "8 s after the first repair (departure of %r) these computations still have fewer than %d replicas on the surviving agents: %r" % (
+                  "after the first repair (departure of %r; waited 8 s, up to 40 s while searches were still in progress) these computations still have fewer than %d replicas on the surviving agents: %r" % (
                       sorted(leaving1), S2["level_wanted"], short) + ctx))
     reports = S2.get("reports") or []
     crashed = sorted({a for a, e in S2.get("fatal", []) if a not in leaving1 and a not in leaving2})
